@@ -14,6 +14,18 @@ HARNESS = os.path.join(ROOT, "harness")
 OUT = os.path.join(ROOT, "out")
 EVID = os.path.join(ROOT, "evidence")
 
+# every JVM started by this process gets a private temp directory under out/ (TLC leaves an empty
+# tlc-<n> directory behind per run); it is removed when the process exits
+JAVA_TMP = os.path.join(OUT, "tmp", str(os.getpid()))
+
+
+def _java_tmp():
+    os.makedirs(JAVA_TMP, exist_ok=True)
+    return " -Djava.io.tmpdir=" + JAVA_TMP
+
+
+import atexit  # noqa: E402
+atexit.register(lambda: shutil.rmtree(JAVA_TMP, ignore_errors=True))
 TLC_ENV = {"JAVA_TOOL_OPTIONS": "-Xss1g -Xmx3g -Dtlc2.tool.queue.IStateQueue=StateDeque"}
 PROFILES = {"dev": "debug", "release": "release"}
 NATIVE_TARGET = os.path.join(HARNESS, "target-native")
@@ -82,6 +94,7 @@ def tlc(module, cfg, metadir, env=None, workers=1, extra=(), timeout=3600):
     e = dict(TLC_ENV)
     if env:
         e.update(env)
+    e["JAVA_TOOL_OPTIONS"] = e.get("JAVA_TOOL_OPTIONS", "") + _java_tmp()
     cmd = ["tlc", "-workers", str(workers), "-metadir", metadir, "-cleanup", "-noGenerateSpecTE",
            "-config", cfg] + list(extra) + [module]
     try:
